@@ -73,6 +73,11 @@ func TestHuntC10BisyncBookkeepingKeysForwardedFromStream(t *testing.T) {
 		cmds = append(cmds, []string{"SET", k, "payload"})
 	}
 	cmds = append(cmds, []string{"DEL", huntC10BisyncKeys()[3]})
+	// a bookkeeping key at a LATER key position of a multi-key command (session 2): the accepted keys of
+	// MSET / DEL stay, any other command is withheld
+	cmds = append(cmds, []string{"MSET", "user:2", "v", huntC10BisyncKeys()[0], "payload"})
+	cmds = append(cmds, []string{"RENAME", "user:3", huntC10BisyncKeys()[1]})
+	cmds = append(cmds, []string{"SMOVE", "user:4", huntC10BisyncKeys()[2], "m"})
 
 	var payload bytes.Buffer
 	for _, c := range cmds {
